@@ -4,6 +4,14 @@ against; re-proved against the facts regenerated from /repo on every run). -/
 namespace Tally.Tie.C14Frozen
 open Tally
 
+theorem body_m3_noopMetric_ReportCount_unchanged : Facts.body_m3_noopMetric_ReportCount = ["func(value int64)"] := rfl
+
+theorem body_m3_noopMetric_ReportGauge_unchanged : Facts.body_m3_noopMetric_ReportGauge = ["func(value float64)"] := rfl
+
+theorem body_m3_noopMetric_ReportSamples_unchanged : Facts.body_m3_noopMetric_ReportSamples = ["func(value int64)"] := rfl
+
+theorem body_m3_noopMetric_ReportTimer_unchanged : Facts.body_m3_noopMetric_ReportTimer = ["func(interval time.Duration)"] := rfl
+
 theorem body_m3_reporter_Close_unchanged : Facts.body_m3_reporter_Close = ["func() (err error)", "if !r.done.CAS(false, true) { return errAlreadyClosed }", "verifhook.Yield(\"m3.close.post-cas\")", "for r.pending.Load() > 0 { runtime.Gosched() }", "verifhook.Yield(\"m3.close.post-spin\")", "close(r.donech)", "verifhook.Yield(\"m3.close.post-donech\")", "close(r.metCh)", "verifhook.Yield(\"m3.close.post-metch\")", "r.wg.Wait()", "return nil"] := rfl
 
 theorem body_m3_reporter_Flush_unchanged : Facts.body_m3_reporter_Flush = ["func()", "r.pending.Inc()", "defer r.pending.Dec()", "verifhook.Yield(\"m3.flush.post-inc\")", "if r.done.Load() { return }", "verifhook.Yield(\"m3.flush.post-done-check\")", "r.reportInternalMetrics()", "r.metCh <- sizedMetric{}"] := rfl
